@@ -50,7 +50,7 @@ pub fn run(cfg: &Config) -> i32 {
 		},
 		total,
 		started,
-		if cfg.san { 50 } else { 1_000_000 },
+		if cfg.san { 20 } else { 1_000_000 },
 	)
 	.exit
 }
